@@ -53,7 +53,7 @@ TOKS = ["int", "a", "1", "\"s\"", "'c'", "(", ")", "{", "}", "[", "]", ";", ",",
         "include", "define", "if", "while", "return", "struct", "typedef", "<", ">", "\n", "else", "sizeof", "static"]
 DIRECTIVES = ["include", "import", "define", "undef", "if", "ifdef", "ifndef", "elif", "else", "endif", "pragma", "error",
               "warning", "line", "foo", ""]
-DIR_ARGS = ["", "NAME", "name", "NULL", "int", "inline", "if", "sizeof", "return", "42", "\"file.h\"", "<file.h>", "<file.h", "file.h>", "\"file.h", "(", ")", "(1 +", "1 +", "+",
+DIR_ARGS = ["", "A -", "A +", "A ~", "A -1", "A (", "A 1 +", "A !", "A *", "A ++", "A \"s", "A 's", "A(x) -", "NAME", "name", "NULL", "int", "inline", "if", "sizeof", "return", "42", "\"file.h\"", "<file.h>", "<file.h", "file.h>", "\"file.h", "(", ")", "(1 +", "1 +", "+",
             "defined", "defined(", "defined(X)", "!defined X", "X Y", "X(a, b) a", "X(", "X(a", "X ##", "\\", "// c", "/* c",
             "NAME NAME NAME", "1 ? 2 : 3", "1 ? 2", "(((((1)))))", "0x", "'", "\"", "@"]
 DIR_TAILS = ["", "\n", "\nint\tf(void)\n{\n\treturn (0);\n}\n", "\n#endif\n"]
@@ -79,7 +79,10 @@ def run_tokseq(spec):
         for name, src, ctx in (("t.c", line + "\n", "file"), ("t.c", line, "file_no_nl"),
                                ("t.h", line + "\n", "header"),
                                ("t.c", "int\tf(void)\n{\n\t" + line + "\n}\n", "body"),
-                               ("t.c", "int\tf(void)\n{\n\t" + line, "body_open")):
+                               ("t.c", "int\tf(void)\n{\n\t" + line, "body_open"),
+                               ("t.c", line + "\\\n ", "ends_in_splice_and_space"),
+                               ("t.c", line + "\n  ", "ends_in_spaces_line"),
+                               ("t.c", line + " \\\n", "ends_in_splice")):
             judge(sh, name, src, {"tokens": list(seq), "context": ctx}, "tokseq")
     sh.sample({"token_sequences": "all sequences up to length %d over %d token spellings + %d sampled of length 3-6, in 5 contexts" % (
         spec["maxlen"], len(TOKS), spec["sample"])})
@@ -172,12 +175,16 @@ def run_programs(spec):
                 cuts = rng.sample(cuts, min(len(cuts), 22))
             for c in cuts:
                 judge(sh, q.name, src[:c], {"tag": tag, "cut": c}, "prefix")
+            for c in cuts[:6]:
+                judge(sh, q.name, src[:c] + rng.choice(["\\\n ", " ", "\n ", "\\\n", "\t", "??/\n\t"]), {"tag": tag, "cut": c}, "prefix_ws")
             nedit = 16 if not thorough else 120
             for _ in range(nedit):
                 k = rng.randrange(first, len(items))
-                opn = rng.choice(["del", "dup", "swap", "repl"])
+                opn = rng.choice(["del", "dup", "swap", "repl", "ins"])
                 texts = [it[1] for it in items]
-                if opn == "del":
+                if opn == "ins":
+                    texts.insert(k, rng.choice(["\\\n", "??/\n", " ", "\t", "\n", "\\\n ", "/* c */", "// c\n", "@", "\"", "'"]))
+                elif opn == "del":
                     del texts[k]
                 elif opn == "dup":
                     texts.insert(k, texts[k])
